@@ -492,7 +492,7 @@ func TestC11Exhaustive(t *testing.T) {
 func TestC11Random(t *testing.T) {
 	run := h.Begin("C11", "random", "rapid: signatures of 0-4 parameters (optional context, optional variadic tail, error result), argument lists of length 0..n+2 over all argument values (numbers inside every integer type's range, fractions, negatives, strings, arrays of numbers/strings/mixed/nested/null, a map, a time, null), with and without spread; same oracle; a returned error must abort evaluation with an error naming the function; distinct by (signature, arguments)")
 	defer run.End(t)
-	h.RapidSetup(h.N(8000, 600000), "c11rand")
+	h.RapidSetup(h.N(8000, 3000000), "c11rand")
 	rapid.Check(t, func(rt *rapid.T) {
 		n := rapid.IntRange(0, 4).Draw(rt, "nparams")
 		fn := spec.Fn{Name: rapid.SampledFrom([]string{"f", "hostFn", "g1"}).Draw(rt, "name"), Ctx: rapid.Bool().Draw(rt, "ctx"), Ret: "nil"}
@@ -600,7 +600,7 @@ func TestC11Returns(t *testing.T) {
 	if run.NViolations() > 0 {
 		return
 	}
-	h.RapidSetup(h.N(1500, 100000), "c11ret")
+	h.RapidSetup(h.N(1500, 500000), "c11ret")
 	rapid.Check(t, func(rt *rapid.T) {
 		var c [2]string
 		switch rapid.IntRange(0, 3).Draw(rt, "kind") {
